@@ -26,7 +26,7 @@ func init() {
 		instrument: []string{"-maps", "-clock", "-tick", "-locks"},
 		tiers: map[string]tierCfg{
 			"quick":    {cases: 480, timeout: 10 * time.Minute},
-			"thorough": {cases: 32_000, timeout: 30 * time.Minute},
+			"thorough": {cases: 24_000, timeout: 60 * time.Minute},
 		},
 		level: "exploration",
 		rule: "case = one tape: a shared font (a Go font, its simple or CID-keyed CFF conversion, or a generated font with GSUB/GPOS/GDEF) built on the main goroutine; 2..6 tasks each with 2..6 tape-chosen read-only operations (Write, WriteTrueTypePDF / WriteOpenTypeCFFPDF, AsCFF().Write, Subset+Write, Clone, FontBBox(PDF), Widths*/IsFixedPitch, GlyphBBoxes, glyph metrics, MakeGlyphNames, GetFontInfo/PostScriptName, NewLayouter+Layout, NewContext+Apply on the shared lookup lists, ExplainGsub/ExplainGpos). Exactly one task runs at a time; the tape picks the next task at operation boundaries, at every simulated Write call and at tape-chosen function-entry/loop steps (40..440 switches per case). The baton is passed with raw pipe system calls that the race detector does not model, so it still reports unsynchronised conflicting accesses between tasks. Afterwards every result is compared with the same call run alone on an independently built identical font, and the shared font's digest with its value before. 8 cases per process so that package-level lazily-built state is cold regularly. Non-trivial = every case; distinct = distinct (schedule hash, operation plan).",
